@@ -572,6 +572,17 @@ class Check:
         os.makedirs(os.path.join(VERIF, "evidence"), exist_ok=True)
         with open(os.path.join(VERIF, "evidence", self.pid + ".json"), "w") as fh:
             json.dump(ev, fh, indent=1, default=str)
+        # run ledger (last run per tier on the real /repo; DESIGN.md 10.2 is generated from it by bin/vtiertable)
+        if REPO == "/repo" and not os.environ.get("VERIF_NO_LEDGER"):
+            try:
+                os.makedirs(os.path.join(VERIF, "notes", "runs"), exist_ok=True)
+                with open(os.path.join(VERIF, "notes", "runs", "%s-%s.json" % (self.pid, self.tier)), "w") as fh:
+                    json.dump({"property": self.pid, "tier": self.tier, "seed": seed(), "wall_s": ev["wall_s"],
+                               "evaluations": self.cov["evaluations"], "distinct_nontrivial": self.cov["distinct_nontrivial"],
+                               "tlc_states": self.cov["states"], "violations": len(reported),
+                               "parts": {k: v for k, v in self.parts.items() if len(json.dumps(v, default=str)) < 400}}, fh, indent=1, default=str)
+            except OSError:
+                pass
         log("%s %s: evaluations=%d distinct=%d states=%d violations=%d wall=%.1fs" % (
             self.pid, self.tier, self.cov["evaluations"], self.cov["distinct_nontrivial"],
             self.cov["states"], len(reported), time.time() - self.t0))
